@@ -140,6 +140,8 @@ def build(tempo, res, sparse=False):
     ev, body, body2 = [], [], []
     for i, t in enumerate(pts):
         ev += ['%d = E "x%d"' % (t, i), '%d = E "section s%d"' % (t, i), '%d = E "lyric l%d"' % (t, i)]
+        if i % 3 == 0:  # several events of ONE kind on one tick (phrase_end / phrase_start, soloend / solo ...)
+            ev += ['%d = E "y%d"' % (t, i), '%d = E "lyric m%d"' % (t, i), '%d = E "section t%d"' % (t, i)]
         nxt = pts[i + 1] - t if i + 1 < len(pts) else 2
         k = i % 4
         if k == 0:  # single lane sustained to the next probe tick
@@ -154,7 +156,7 @@ def build(tempo, res, sparse=False):
         # second track: sustains reaching the probe tick AFTER the next one (they overlap the next note and cross
         # whatever tempo changes lie in between)
         nxt2 = pts[i + 2] - t if i + 2 < len(pts) else nxt + 5
-        body2 += ["%d = N 7 %d" % (t, nxt2) if i % 2 == 0 else "%d = N 2 %d" % (t, nxt2), "%d = E e" % t]
+        body2 += ["%d = N 7 %d" % (t, nxt2) if i % 2 == 0 else "%d = N 2 %d" % (t, nxt2), "%d = E e" % t] + (["%d = E f" % t, "%d = S 2 0" % t, "%d = S 2 2" % t] if i % 3 == 1 else [])
     return mk(res=res, sync=sync, events=ev, tracks=[("ExpertSingle", body), ("EasyGHLBass", body2)]), pts
 
 
